@@ -250,7 +250,7 @@ def file_store_phase(ctx, only=None):
         ctx.spec_violation(r, "C09 carry-through to rolling files: FileChan.tla: %s violated by the transcription of EventBatch" % r.violated)
         return
     ctx.require_actions(r, ["Send", "Take", "Finish"], "FileChan")
-    rb = ctx.tlc("FileChan", "FileChan_lazy.cfg", workers=1, timeout=120, xmx="1g", coverage=False,
+    rb = ctx.tlc("FileChan", "FileChan_lazy.cfg", workers=1, timeout=900, xmx="1g", coverage=False,
                  expect_violation=True, count=False, label="FileChan_lazy")
     if rb.violated != "StoreBounded":
         raise vlib.ToolError("FileChan_lazy.cfg: a clear that only moves the cursor no longer violates StoreBounded (%s)" % rb.violated)
